@@ -5,7 +5,7 @@ set -u
 cd "$(dirname "$0")/.."
 VERIF=$(pwd)
 [ -x bin/ottocheck ] || ./check --list >/dev/null
-ids=("$@"); [ ${#ids[@]} -eq 0 ] && ids=($(ls -d seeded/*/ | xargs -n1 basename))
+ids=("$@"); [ ${#ids[@]} -eq 0 ] && ids=($(ls -d seeded/C*/ | xargs -n1 basename))
 run_one() {
   id=$1
   T=$(mktemp -d /tmp/seedrun.XXXXXX)
